@@ -38,6 +38,7 @@ RULE += (' Also: tools left after k items over class-based sources whose own acl
 RULE += (' Also: synchronous callables whose later results are awaitable payload.')
 RULE += (' Also: large all-synchronous runs (70 000+ items) repeated, driven by hand, inside a running asyncio loop.')
 RULE += (" Also: a tee closed (aclose / async-with exit / child close) during another task's pending read, also inside a running asyncio loop.")
+RULE += (' Also: plain generator functions as callables (nothing reaches the loop, generators come out unstarted).')
 ASSUMPTIONS = ["a loop that checks identity of every token and reply is at least as strict as any real event loop",
                "C functions called from asyncstdlib code are visible to sys.monitoring CALL events"]
 EXHAUSTIVE = {"quick": False, "thorough": False}
@@ -127,6 +128,8 @@ def cases(tier, seed, shard, nshards):
                             yield {"kind": "pending-read-close",
                                    "c07": {"kind": "conc_close", "flav": flav, "reborrow": reborrow, "close_at": close_at,
                                            "susp": susp, "via": via}}
+        for tool in ("map", "map2", "starmap", "filter", "takewhile", "accumulate", "reduce", "iter", "exitstack", "sync"):
+            yield {"kind": "generator-callable", "tool": tool}
         for flav in ("async_class", "async_gen"):
             for n in (1, 2):
                 for lock in (False, True):
@@ -1075,6 +1078,88 @@ def run_pending_read_close(case, stats):
     return {"violations": viols, "evals": 1, "sigs": [("pending-read-close", str(case["c07"]))]}
 
 
+def run_generator_callables(case, stats):
+    """The callable is a plain GENERATOR FUNCTION (``def`` with ``yield``): a synchronous callable whose result - a lazy
+    sequence - is a value like any other.  Nothing is awaited, nothing of what the generators would yield reaches the loop,
+    and the generators come out unstarted."""
+    import inspect
+    _ensure_monitor(stats)
+    CTX.reset()
+    tool = case["tool"]
+
+    def pieces(x, *more):
+        yield ("piece-token", x)
+        yield ("piece-token", x, more)
+        return "done"
+
+    data = [1, 2, 3]
+
+    async def main():
+        if tool == "map":
+            return await A.list(A.map(pieces, data))
+        if tool == "map2":
+            return await A.list(A.map(pieces, data, data))
+        if tool == "starmap":
+            return await A.list(A.starmap(pieces, [(1, 2), (3, 4)]))
+        if tool == "filter":
+            return await A.list(A.filter(pieces, data))  # (a generator object is truthy: everything stays)
+        if tool == "takewhile":
+            return await A.list(A.takewhile(pieces, data))
+        if tool == "accumulate":
+            return await A.list(A.accumulate(data, pieces))
+        if tool == "reduce":
+            return [await A.reduce(pieces, data)]
+        if tool == "iter":
+            made = []
+
+            def make():
+                made.append(1)
+                if len(made) > 2:
+                    return None
+                return pieces(len(made))
+            return await A.list(A.iter(make, None))
+        if tool == "exitstack":
+            out = []
+
+            def exit_gen(et, ev, tb):
+                out.append("called")
+                yield "exit-token"
+            async with A.ExitStack() as stack:
+                stack.push(exit_gen)
+                stack.callback(pieces, 1)
+            return out
+        if tool == "sync":
+            return [await A.sync(pieces)(1)]
+        raise ValueError(tool)
+
+    viols = []
+    coro = main()
+    try:
+        surfaced = coro.send(None)
+    except StopIteration as stop:
+        surfaced, result = StopIteration, stop.value
+    except BaseException as exc:  # noqa: BLE001
+        surfaced, result = StopIteration, None
+        viols.append({"key": f"{tool}/generator-function-callable-raised", "msg": f"{tool} with a generator function as callable: {exc!r}"})
+    if surfaced is not StopIteration:
+        coro.close()
+        viols.append({"key": f"{tool}/suspends-with-sync-arguments",
+                      "msg": f"{tool} with a plain generator function as callable suspended, yielding {surfaced!r} to the loop"})
+    elif tool in ("filter", "takewhile"):
+        if result != data:  # (a generator object is truthy: every item passes)
+            viols.append({"key": f"{tool}/generator-result-not-handed-on-untouched",
+                          "msg": f"{tool} with a plain generator function as predicate gave {result!r}, expected {data}"})
+    elif result is not None and tool != "exitstack":
+        gens = [g for g in result if not isinstance(g, int)]
+        bad = [g for g in gens if not inspect.isgenerator(g) or inspect.getgeneratorstate(g) != inspect.GEN_CREATED]
+        if bad or not gens:
+            viols.append({"key": f"{tool}/generator-result-not-handed-on-untouched",
+                          "msg": f"{tool} with a plain generator function as callable gave {result!r}"[:400]})
+    stats["generator_function_callable_runs"] += 1
+    _drain_asyncio(viols, f"{tool} with a generator function")
+    return {"violations": viols, "evals": 1, "sigs": [("genfunc", tool)]}
+
+
 def run_tee_pending_close(case, stats):
     """Two tasks share a tee over a suspending source; one closes the tee (aclose / leaving ``async with``) or a
     sibling child while the other's read through a child is suspended inside the source.  Whatever the library does
@@ -1153,6 +1238,8 @@ def run_tee_pending_close(case, stats):
 
 def run_case(case, stats: Counter):
     kind = case["kind"]
+    if kind == "generator-callable":
+        return run_generator_callables(case, stats)
     if kind == "tee-pending-close":
         return run_tee_pending_close(case, stats)
     if kind == "pending-read-close":
